@@ -20,9 +20,9 @@ func init() {
 }
 
 type histCfg struct {
-	prop        string
-	maxOps      int
-	allowKill   bool
+	prop         string
+	maxOps       int
+	allowKill    bool
 	checkImage   func(ctx, cause string)
 	afterAccept  func()
 	up4          bool
